@@ -1288,6 +1288,108 @@ Section UploadDir.
   Qed.
 End UploadDir.
 
+(* ================================================================== *)
+(* the upload theorems                                                   *)
+
+Lemma bfs_root_perm ch :
+  Permutation (bfs (tree_size (Dir ch)) [([], ch)]) (nodes [] (Dir ch)).
+Proof.
+  rewrite bfs_perm.
+  - unfold qnodes. simpl. rewrite app_nil_r. reflexivity.
+  - rewrite qsize_cons, tree_size_dir. unfold qsize. simpl. lia.
+Qed.
+
+Lemma upload_gen_dir_spec fixed cwd fs nm ch dst wi chc :
+  let dst' := final_destination nm dst wi in
+  let A := resolve cwd dst' in
+  resolve cwd (upload_anchor fixed wi dst' nm) = A ->
+  lookup fs cwd = Some (Dir chc) ->
+  wf_tree (Dir ch) ->
+  compat fs A (Dir ch) ->
+  exists fs', upload_gen fixed cwd fs nm (Dir ch) dst wi = Ok fs' /\
+              forall q, look fs' q = placed fs A (Dir ch) q.
+Proof.
+  intros dst' A EA Hc W C.
+  set (ops := bfs (tree_size (Dir ch)) [([], ch)]).
+  assert (SND : sound (Dir ch) ops).
+  { intros r t I. apply (Permutation_in _ (bfs_root_perm ch)) in I.
+    apply nodes_sound in I as (r' & -> & Hr & L); auto. }
+  assert (CMP : forall r t, r <> [] -> lookup (Dir ch) r = Some t -> In (r, t) ops).
+  { intros r t Hr L. apply (Permutation_in _ (Permutation_sym (bfs_root_perm ch))).
+    apply (nodes_complete (Dir ch) [] r t Hr L). }
+  exists (fold_left (sem_op A) ops (ensure_dir fs A)). split.
+  - pose proof (upload_gen_dir_actual fixed cwd fs nm ch dst wi chc) as H. cbv zeta in H.
+    fold dst' in H. rewrite EA in H. apply H; auto.
+    + apply C.
+    + apply (ops_run_ok fs A ch ops); auto.
+  - intro q. apply (final_view fs A ch ops); auto.
+Qed.
+
+(* the candidate fix: full statement *)
+Lemma upload_spec_fixed cwd fs nm ch dst wi chc :
+  let A := resolve cwd (final_destination nm dst wi) in
+  lookup fs cwd = Some (Dir chc) ->
+  wf_tree (Dir ch) ->
+  compat fs A (Dir ch) ->
+  exists fs', upload_fixed cwd fs nm (Dir ch) dst wi = Ok fs' /\
+              forall q, look fs' q = placed fs A (Dir ch) q.
+Proof. intros A. apply (upload_gen_dir_spec true). reflexivity. Qed.
+
+(* the code as it is: right exactly when the children's anchor cwd/<last component> is the destination *)
+Lemma upload_dir_spec_partial cwd fs nm ch dst wi chc :
+  let dst' := final_destination nm dst wi in
+  let A := resolve cwd dst' in
+  resolve cwd (bug_anchor wi dst' nm) = A ->
+  lookup fs cwd = Some (Dir chc) ->
+  wf_tree (Dir ch) ->
+  compat fs A (Dir ch) ->
+  exists fs', upload cwd fs nm (Dir ch) dst wi = Ok fs' /\
+              forall q, look fs' q = placed fs A (Dir ch) q.
+Proof. intros dst' A. apply (upload_gen_dir_spec false). Qed.
+
+(* ... which covers: write_into with a relative destination of at most one component, and no
+   write_into with the empty destination *)
+Lemma bug_anchor_ok cwd nm dst wi :
+  (wi = true /\ p_abs dst = false /\ (p_parts dst = [] \/ exists n, n <> [] /\ p_parts dst = [n])) \/
+  (wi = false /\ dst = mkp false []) ->
+  resolve cwd (bug_anchor wi (final_destination nm dst wi) nm)
+  = resolve cwd (final_destination nm dst wi).
+Proof.
+  intros [(-> & Ha & Hp)|(-> & ->)].
+  - destruct dst as [ab parts]. cbn in Ha. subst ab. cbn [p_parts] in Hp.
+    destruct Hp as [->|(n & Hn & ->)]; [reflexivity|].
+    unfold bug_anchor, final_destination, pname, of_name, resolve. cbn. destruct n; [congruence|reflexivity].
+  - reflexivity.
+Qed.
+
+(* a single file: any destination with a name, both write_into, both versions *)
+Lemma upload_file_spec fixed cwd fs nm c dst wi chc :
+  let dst' := final_destination nm dst wi in
+  let A := resolve cwd dst' in
+  lookup fs cwd = Some (Dir chc) ->
+  p_parts dst' <> [] ->
+  no_file_on fs (removelast A) ->
+  (forall ch, lookup fs A <> Some (Dir ch)) ->
+  upload_gen fixed cwd fs nm (File c) dst wi = Ok (graft fs A (File c)) /\
+  forall q, look (graft fs A (File c)) q = placed fs A (File c) q.
+Proof.
+  intros dst' A Hc Hp NF ND. split.
+  - unfold upload_gen. fold dst'. rewrite (upload_file_exact cwd fs dst' c chc); auto.
+  - intro q. change (graft fs A (File c)) with (write_at fs A c). rewrite look_write_at. unfold placed.
+    destruct (strip_prefix A q) as [[|m x]|] eqn:SP; try reflexivity.
+    apply strip_prefix_Some in SP. subst q. cbn. rewrite look_app.
+    destruct (lookup fs A) as [[c0|ch0]|] eqn:E; auto. exfalso. eapply ND; reflexivity.
+Qed.
+
+(* non-vacuity: a fresh destination is always compatible *)
+Lemma compat_fresh fs A src :
+  no_file_on fs A -> lookup fs A = None -> compat fs A src.
+Proof.
+  intros NF L. split; [assumption|]. intros r t _.
+  assert (E : lookup fs (A ++ r) = None) by (rewrite lookup_app, L; reflexivity).
+  rewrite E. destruct t; discriminate.
+Qed.
+
 (* names used by the witnesses: "foo", "x", "y", "a" *)
 Definition n_foo : name := [102; 111; 111].
 Definition n_x : name := [120].
